@@ -80,6 +80,7 @@ _CMP = {
 }
 _PURE = {'len': len, 'int': int, 'float': float, 'str': str, 'bool': bool, 'abs': abs, 'round': round,
          'sorted': sorted, 'sum': sum, 'any': any, 'all': all, 'range': range, 'enumerate': enumerate, 'zip': zip,
+         'reversed': lambda x: list(reversed(x)),
          'isinstance': None, 'type': None, 'set': set, 'frozenset': frozenset, 'tuple': tuple,
          'list': list, 'min': min, 'max': max}
 _STR_METHODS = {'startswith', 'endswith', 'find', 'upper', 'lower', 'strip', 'title',
@@ -108,7 +109,7 @@ class Outcome:
 class Interp:
     def __init__(self, analysis, module, env, effect_receivers=(), self_class=None,
                  isinstance_fn=None, call_models=None, raise_classifier=None, inline_pkg=False, depth=0,
-                 record_unknown=False):
+                 record_unknown=False, scope_fn=None):
         """
         env                initial locals
         effect_receivers   names whose method calls are recorded as events ('stack', 'output')
@@ -124,6 +125,7 @@ class Interp:
         self.call_models = call_models or {}
         self.inline_pkg = inline_pkg
         self.record_unknown = record_unknown
+        self.scope_fn = scope_fn
         self.depth = depth
         self.out = Outcome()
 
@@ -176,6 +178,25 @@ class Interp:
                     pass
             else:
                 self.out.loop_entered = False
+        elif isinstance(s, ast.For):
+            it = self.ev(s.iter)
+            if isinstance(it, (Opaque, Ref, Rec)) or not hasattr(it, '__iter__'):
+                raise Unmodelled(f'for-loop over a symbolic iterable at line {s.lineno}')
+            items = list(it)
+            if len(items) > 256:
+                raise Unmodelled('for-loop over more than 256 items')
+            broke = False
+            for item in items:
+                self.store(s.target, item)
+                try:
+                    self.block(s.body)
+                except _Break:
+                    broke = True
+                    break
+                except _Continue:
+                    continue
+            if not broke:
+                self.block(s.orelse)
         elif isinstance(s, ast.Expr):
             self.ev(s.value)
         elif isinstance(s, ast.Pass):
@@ -266,6 +287,10 @@ class Interp:
         if isinstance(n, ast.Name):
             if n.id in self.env:
                 return self.env[n.id]
+            if self.scope_fn is not None:
+                lazy = self._lazy_local(n.id)
+                if lazy is not None:
+                    return self.ev(lazy)
             try:
                 return self.a.folder.fold(n, self.m)
             except Unfoldable:
@@ -355,9 +380,10 @@ class Interp:
             if isinstance(n.slice, ast.Slice):
                 lo = self.ev(n.slice.lower) if n.slice.lower else None
                 hi = self.ev(n.slice.upper) if n.slice.upper else None
+                st = self.ev(n.slice.step) if n.slice.step else None
                 if isinstance(base, (Opaque, Ref)):
                     return Opaque('slice')
-                return base[lo:hi]
+                return base[lo:hi:st]
             idx = self.ev(n.slice)
             if isinstance(base, (Opaque, Ref)) or isinstance(idx, (Opaque,)):
                 return Opaque('subscript')
@@ -367,6 +393,16 @@ class Interp:
                 raise ExcRaised(Ref(f'builtin:{type(exc).__name__}'))
         if isinstance(n, ast.JoinedStr):
             return Opaque('fstring')
+        if isinstance(n, (ast.ListComp, ast.GeneratorExp, ast.SetComp)):
+            out = []
+            self._comp(n.generators, 0, lambda: out.append(self.ev(n.elt)))
+            return set(out) if isinstance(n, ast.SetComp) else out
+        if isinstance(n, ast.DictComp):
+            outd = {}
+            self._comp(n.generators, 0, lambda: outd.__setitem__(self.ev(n.key), self.ev(n.value)))
+            return outd
+        if isinstance(n, ast.Lambda):
+            return Opaque('lambda')
         if isinstance(n, ast.Call):
             return self.call(n)
         raise Unmodelled(f'expression {type(n).__name__}: {ast.unparse(n)[:60]}')
@@ -401,9 +437,24 @@ class Interp:
                 return recv.get(*args)
             if isinstance(recv, (list, tuple)) and fn.attr in ('index', 'count'):
                 return getattr(recv, fn.attr)(*args)
+            if isinstance(recv, list) and fn.attr in ('append', 'pop', 'extend', 'insert'):
+                try:
+                    return getattr(recv, fn.attr)(*args)
+                except IndexError:
+                    raise ExcRaised(Ref('builtin:IndexError'))
         text = ast.unparse(fn)
         ref = None
-        if isinstance(fn, ast.Name) and fn.id in self.env:
+        if not isinstance(fn, (ast.Name, ast.Attribute)):
+            callee = self._safe_ev(fn)
+            if isinstance(callee, Ref):
+                ref = callee.ref
+        elif isinstance(fn, ast.Attribute):
+            callee = self._safe_ev(fn)
+            if isinstance(callee, Ref) and not callee.ref.startswith('ext:'):
+                ref = callee.ref
+        if ref is not None:
+            pass
+        elif isinstance(fn, ast.Name) and fn.id in self.env:
             bound = self.env[fn.id]
             if isinstance(bound, Ref):
                 ref = bound.ref
@@ -414,10 +465,31 @@ class Interp:
         for key in (ref, text):
             if key in self.call_models:
                 return self.call_models[key](*args, **kwargs)
+        if ref and ref.startswith('pkg:'):
+            om_, onode_ = self.a.res.lookup(ref)
+            if isinstance(onode_, ast.ClassDef):
+                self.out.events.append(('construct', (ref,) + tuple(args)))
+                return Rec(cls=ref, args=tuple(args), kwargs=kwargs)
         if self.inline_pkg and ref and self.depth < 4:
             om, onode = self.a.res.lookup(ref)
             if isinstance(onode, ast.FunctionDef):
                 return self._inline(om, onode, args, kwargs)
+        if self.depth < 4:
+            # nested closure of the analysed function / private method of the analysed class
+            if isinstance(fn, ast.Name) and self.scope_fn is not None and fn.id not in self.env:
+                for n_ in ast.walk(self.scope_fn):
+                    if isinstance(n_, ast.FunctionDef) and n_ is not self.scope_fn and n_.name == fn.id:
+                        return self._inline(self.m, n_, args, kwargs, closure=True)
+            if isinstance(fn, ast.Attribute) and isinstance(fn.value, ast.Name) and fn.value.id in ('self', 'cls') \
+                    and self.self_class and fn.attr.startswith('_') and not fn.attr.startswith('__'):
+                cm, meth = self.a.res.class_attr(self.self_class, fn.attr)
+                if isinstance(meth, ast.FunctionDef):
+                    static = any(isinstance(d, ast.Name) and d.id == 'staticmethod' for d in meth.decorator_list)
+                    if static:
+                        return self._inline(cm, meth, args, kwargs)
+                    if fn.value.id in self.env:
+                        return self._inline(cm, meth, [self.env[fn.value.id]] + args, kwargs)
+                    return self._inline(cm, meth, args, kwargs, skip_first=True)
         if isinstance(fn, ast.Name) and fn.id in _PURE and fn.id not in self.env:
             if fn.id == 'isinstance':
                 if self.isinstance_fn is None:
@@ -439,23 +511,65 @@ class Interp:
                 raise ExcRaised(Ref(f'builtin:{type(exc).__name__}'))
         raise Unmodelled(f'call {text}(...) at line {n.lineno}')
 
-    def _inline(self, om, fnode, args, kwargs):
+    def _inline(self, om, fnode, args, kwargs, closure=False, skip_first=False):
         params = [a.arg for a in fnode.args.posonlyargs + fnode.args.args]
+        if skip_first:
+            params = params[1:]
         defaults = fnode.args.defaults
-        env = {}
+        env = dict(self.env) if closure else {}
         for p_, d in zip(params[len(params) - len(defaults):], defaults):
             sub = Interp(self.a, om, {}, isinstance_fn=self.isinstance_fn, call_models=self.call_models)
             env[p_] = sub.ev(d)
         for p_, a in zip(params, args):
             env[p_] = a
         env.update(kwargs)
-        sub = Interp(self.a, om, env, effect_receivers=(), isinstance_fn=self.isinstance_fn,
-                     call_models=self.call_models, inline_pkg=True, depth=self.depth + 1)
+        sub = Interp(self.a, om, env, effect_receivers=self.effects if closure else (), isinstance_fn=self.isinstance_fn,
+                     call_models=self.call_models, inline_pkg=self.inline_pkg, depth=self.depth + 1,
+                     self_class=self.self_class, record_unknown=self.record_unknown, scope_fn=self.scope_fn)
         out = sub.run(fnode.body)
         self.out.events.extend(out.events)
         if out.end == 'raise':
             raise ExcRaised(out.value)
         return out.value if out.end == 'return' else None
+
+    def _comp(self, gens, i, emit):
+        if i == len(gens):
+            emit()
+            return
+        g = gens[i]
+        it = self.ev(g.iter)
+        if isinstance(it, (Opaque, Ref, Rec)) or not hasattr(it, '__iter__'):
+            raise Unmodelled('comprehension over a symbolic iterable')
+        items = list(it)
+        if len(items) > 256:
+            raise Unmodelled('comprehension over more than 256 items')
+        saved = dict(self.env)
+        for item in items:
+            self.store(g.target, item)
+            if all(self.truth(self.ev(c)) for c in g.ifs):
+                self._comp(gens, i + 1, emit)
+        # comprehension variables do not leak
+        for k in list(self.env):
+            if k not in saved:
+                del self.env[k]
+
+    def _lazy_local(self, name):
+        """Value expression of a local that is bound exactly once in the analysed function by a plain assignment
+        (a hoisted sub-expression / alias); None otherwise."""
+        cache = self.__dict__.setdefault('_lazy_cache', {})
+        if name in cache:
+            return cache[name]
+        binds = [x for x in ast.walk(self.scope_fn) if isinstance(x, ast.Name) and isinstance(x.ctx, ast.Store) and x.id == name]
+        val = None
+        if len(binds) == 1:
+            st = binds[0]
+            while st is not None and not isinstance(st, ast.stmt):
+                st = getattr(st, '_parent', None)
+            if isinstance(st, ast.Assign) and len(st.targets) == 1 and st.targets[0] is binds[0] \
+                    and not any(isinstance(c, (ast.Yield, ast.Await)) for c in ast.walk(st.value)):
+                val = st.value
+        cache[name] = val
+        return val
 
     def _safe_ev(self, node):
         try:
